@@ -690,9 +690,9 @@ func (fc *FnCtx) execCall(st *State, in ssa.Instruction, c *ssa.CallCommon, resT
 			handled = true
 		}
 	}
-	if !handled && callee != nil {
-		if inl := g.inlineRule(fc, st, in, callee, args, resT); inl != nil {
-			res = *inl
+	if !handled && callee != nil && con == nil && fc.canInline(callee) {
+		if r, ok := fc.inlineCall(st, callee, args); ok {
+			res = r
 			handled = true
 		}
 	}
@@ -701,6 +701,8 @@ func (fc *FnCtx) execCall(st *State, in ssa.Instruction, c *ssa.CallCommon, resT
 		if c.IsInvoke() || callee != nil {
 			base, parts := g.callFrameParts(c)
 			fc.applyCallFrame(st, c, base, parts)
+		} else if pp := paramOfFnValue(c.Value); pp != nil && fc.con != nil && fc.inlineDepth == 0 && containsStr(fc.con.PureFns, pp.Name()) {
+			// a call of a parameter declared `purefn`: no effect on memory (the callers establish it)
 		} else {
 			fc.abstract("call through function value")
 			fc.applyFrame(st, &Frame{top: true})
@@ -991,6 +993,20 @@ func (fc *FnCtx) applyContract(st *State, in ssa.Instruction, c *ssa.CallCommon,
 		}
 		fc.oblige(st, "pre@"+short, r.Label, t, in.Pos(), fc.callerProps(r.Props))
 		fc.q.assert(implies(st.reach, t))
+	}
+	// purefn parameters: the function value passed must not write memory (decided on its inferred frame)
+	for _, pf := range con.PureFns {
+		for i, n := range names {
+			if n != pf || i >= len(c.Args) {
+				continue
+			}
+			fr := g.closeDeps(g.fnValueFrame(c.Args[i]))
+			ok := "true"
+			if fr.top || len(fr.arrs) > 0 || len(fr.facts) > 0 {
+				ok = "false"
+			}
+			fc.oblige(st, "pre@"+short, "purefn_"+pf, ok, in.Pos(), fc.callerProps(nil))
+		}
 	}
 	// higher-order contract: the callee invokes its function-typed parameter exactly once, first.
 	var override map[string]string
@@ -1616,4 +1632,177 @@ func (fc *FnCtx) callerProps(clause []string) []string {
 		set[p] = true
 	}
 	return sortedKeys(set)
+}
+
+// ---------- inlining of small helper functions without a contract ----------
+
+// canInline: callee is an in-module function with a body and no contract, small, loop-free, without defer/recover/
+// closures, not already being inlined, and none of its calls would create a proof obligation (calls to functions whose
+// contract has a `requires`, or interface calls that dispatch to contracted implementations, are left to the modular
+// treatment). Such a call is executed symbolically inside the caller's query instead of being replaced by a havoc: a
+// behaviour-preserving "extract function" refactoring then does not lose the facts the caller's proof needs, and a change
+// inside a small helper is seen by the callers' postconditions.
+func (fc *FnCtx) canInline(callee *ssa.Function) bool {
+	g := fc.g
+	if os.Getenv("GOVC_NOINLINE") != "" || fc.inlineDepth >= 3 {
+		return false
+	}
+	if v, ok := g.inlinable[callee]; ok && !v {
+		return false
+	}
+	for _, f := range fc.inlineStack {
+		if f == callee {
+			return false
+		}
+	}
+	if callee == fc.fn {
+		return false
+	}
+	if v, ok := g.inlinable[callee]; ok {
+		return v
+	}
+	why := 0
+	ok := func() bool {
+		if len(callee.Blocks) == 0 || len(callee.Blocks) > 16 || callee.Recover != nil || len(callee.FreeVars) > 0 || callee.Pkg == nil || !g.inModule(callee.Pkg.Pkg) {
+			why = 1
+			return false
+		}
+		if callee.Signature.Variadic() {
+			why = 2
+			return false
+		}
+		if tr := g.trusted[callee.String()]; tr != nil {
+			why = 3
+			return false
+		}
+		n := 0
+		for _, b := range callee.Blocks {
+			for _, s := range b.Succs {
+				if s.Dominates(b) {
+					why = 4
+					return false // a loop
+				}
+			}
+			for _, in := range b.Instrs {
+				n++
+				switch x := in.(type) {
+				case *ssa.Defer, *ssa.Go, *ssa.Send, *ssa.Select, *ssa.MakeClosure, *ssa.Panic, *ssa.Range, *ssa.Next:
+					why = 5
+					if os.Getenv("GOVC_DEBUG_INLINE") != "" {
+						fmt.Fprintf(os.Stderr, "  not inlinable: %T in %s\n", in, callee.String())
+					}
+					return false
+				case ssa.CallInstruction:
+					c := x.Common()
+					if g.trackName(c) != "" {
+						why = 6
+						return false
+					}
+					if c.IsInvoke() {
+						if g.inModule(c.Method.Pkg()) {
+							why = 7
+							return false
+						}
+						if k := ifaceMethodKey(c.Value.Type(), c.Method); g.contracts[k] != nil {
+							why = 8
+							return false
+						}
+						continue
+					}
+					if _, isB := c.Value.(*ssa.Builtin); isB {
+						continue
+					}
+					f := c.StaticCallee()
+					if f == nil {
+						why = 9
+						return false // call through a function value
+					}
+					if cc := g.contracts[g.fnName(f)]; cc != nil && (len(cc.Requires) > 0 || len(cc.Sets) > 0 || len(cc.Effects) > 0 || cc.Invokes != "") {
+						why = 10
+						return false
+					}
+				}
+			}
+		}
+		return n <= 150
+	}()
+	g.inlinable[callee] = ok
+	if os.Getenv("GOVC_DEBUG_INLINE") != "" {
+		fmt.Fprintf(os.Stderr, "inline? %s: %v (rule %d)\n", callee.String(), ok, why)
+	}
+	return ok
+}
+
+// inlineCall executes callee's body from the caller's current state; on success st becomes the state at callee's exit
+// and the result values are returned. No obligations are generated for the inlined body.
+func (fc *FnCtx) inlineCall(st *State, callee *ssa.Function, args []Val) (Val, bool) {
+	if len(args) != len(callee.Params) {
+		return Val{}, false
+	}
+	type saved struct {
+		fn         *ssa.Function
+		vals       map[ssa.Value]Val
+		exitStates map[*ssa.BasicBlock]*State
+		edgeConds  map[*ssa.BasicBlock][]string
+		loops      []*loopInfo
+		loopOf     map[*ssa.BasicBlock]*loopInfo
+		backEdge   map[[2]int]bool
+		returns    []retPoint
+		curBlock   *ssa.BasicBlock
+		curInstr   ssa.Instruction
+		con        *Contract
+		safetyOn   bool
+		defers     []deferred
+		params     map[string]Val
+		paramTypes map[string]types.Type
+		inputs     []InputTerm
+	}
+	sv := saved{fc.fn, fc.vals, fc.exitStates, fc.edgeConds, fc.loops, fc.loopOf, fc.backEdge, fc.returns, fc.curBlock, fc.curInstr, fc.con, fc.safetyOn, fc.defers, fc.params, fc.paramTypes, fc.inputs}
+	restore := func() {
+		fc.fn, fc.vals, fc.exitStates, fc.edgeConds, fc.loops, fc.loopOf, fc.backEdge, fc.returns = sv.fn, sv.vals, sv.exitStates, sv.edgeConds, sv.loops, sv.loopOf, sv.backEdge, sv.returns
+		fc.curBlock, fc.curInstr, fc.con, fc.safetyOn, fc.defers, fc.params, fc.paramTypes, fc.inputs = sv.curBlock, sv.curInstr, sv.con, sv.safetyOn, sv.defers, sv.params, sv.paramTypes, sv.inputs
+		fc.inlineDepth--
+		fc.inlineStack = fc.inlineStack[:len(fc.inlineStack)-1]
+	}
+	fc.fn, fc.vals, fc.exitStates, fc.edgeConds = callee, map[ssa.Value]Val{}, map[*ssa.BasicBlock]*State{}, map[*ssa.BasicBlock][]string{}
+	fc.loops, fc.loopOf, fc.backEdge, fc.returns = nil, map[*ssa.BasicBlock]*loopInfo{}, map[[2]int]bool{}, nil
+	fc.con, fc.safetyOn, fc.defers = nil, false, nil
+	fc.params, fc.paramTypes = map[string]Val{}, map[string]types.Type{}
+	fc.inlineDepth++
+	fc.inlineStack = append(fc.inlineStack, callee)
+	defer restore()
+	for i, p := range callee.Params {
+		v := args[i]
+		v.Typ = p.Type()
+		fc.vals[p] = v
+		fc.params[p.Name()] = v
+		fc.paramTypes[p.Name()] = p.Type()
+	}
+	entry := st.clone()
+	fc.runBlocks(entry)
+	if fc.err != nil {
+		return Val{}, false
+	}
+	exit, results := fc.mergeReturns()
+	if exit == nil {
+		return Val{}, false
+	}
+	fc.useTrusted("calls to small loop-free in-module functions without a contract are inlined (executed symbolically in the caller; the safety of their bodies is not claimed)")
+	*st = *exit
+	switch len(results) {
+	case 0:
+		return Val{}, true
+	case 1:
+		return results[0], true
+	}
+	return Val{Tup: results}, true
+}
+
+func containsStr(xs []string, x string) bool {
+	for _, y := range xs {
+		if y == x {
+			return true
+		}
+	}
+	return false
 }
